@@ -27,14 +27,19 @@ class SemEnv:
         self.fullcfg = full
         self.ver = full["arch_version"]
 
-    def install(self, word, row, mode, regvals, nzcvq=0, ge=0, it=0, addr=CODE, extra=None, cpsr_or=0, aif=None):
+    def install(self, word, row, mode, regvals, nzcvq=0, ge=None, it=0, addr=CODE, extra=None, cpsr_or=0, aif=None):
         """regvals: {n: value} for the current mode's view.  Returns the pre-state regs tuple as installed."""
         regs = list(self.base[0])
         ix = self.index
         thumb = row.iset != A32
-        cpsr = (regs[ix["cpsr"]] & 0x000001C0) | mode | (nzcvq << 27) | (ge << 16) | cpsr_or
-        if aif is not None:
-            cpsr = (cpsr & ~0x1C0) | (aif << 6)        # A/I/F mask background (default: all masked)
+        # backgrounds the caller does not fix are spread deterministically over the cases (a frame condition is only
+        # as good as the variety of the state it is checked against): GE<3:0> and the A/I/F masks
+        h = (word ^ (word >> 9) ^ (word >> 19) ^ nzcvq ^ (mode << 1)) & 0xFF
+        if ge is None:
+            ge = (0b0000, 0b1010, 0b0101, 0b1111)[h & 3]
+        if aif is None:
+            aif = (0b111, 0b000, 0b101, 0b010)[(h >> 2) & 3]
+        cpsr = mode | (nzcvq << 27) | (ge << 16) | cpsr_or | (aif << 6)
         if thumb:
             cpsr |= 0x20 | ((it & 3) << 25) | ((it >> 2) << 10)
         regs[ix["cpsr"]] = cpsr
@@ -48,7 +53,7 @@ class SemEnv:
         machine.put_instr(self.cpu, addr, word, thumb, row.width)
         return tuple(regs)
 
-    def run(self, word, row, fields, mode, regvals, nzcvq=0, ge=0, it=0, addr=CODE, extra=None, mempatch=None, cpsr_or=0,
+    def run(self, word, row, fields, mode, regvals, nzcvq=0, ge=None, it=0, addr=CODE, extra=None, mempatch=None, cpsr_or=0,
             model_hook=None, aif=None):
         """Executes one case.  Returns (diffs, outcome, info): diffs = [(loc, model, impl)], or None if the model
         classes the instance UNPREDICTABLE."""
